@@ -88,10 +88,9 @@ theorem sem_has3 (p : SessParams) (r : RouteReq) (nh : Bytes) (h : nh.length = 4
 /-- The block starts with ORIGIN and AS_PATH: at least two attributes. -/
 theorem semAll_two (p : SessParams) (r : RouteReq) (nh : Bytes) : ∃ a b t, semAll p r nh = a :: b :: t := by
   obtain ⟨b, t, e, _⟩ := semAsPath_head p (modelPath p r)
-  refine ⟨_, b, _, ?_⟩
   unfold semAll codeOrder
   simp only [List.flatMap_cons, slot1, slot2, e, List.cons_append, List.nil_append]
-  rfl
+  exact ⟨_, _, _, rfl⟩
 
 theorem sem_code_mem (p : SessParams) (r : RouteReq) (nh : Bytes) (a : Attr) (h : a ∈ semAll p r nh) :
     a.code ∈ allCodes :=
@@ -164,9 +163,10 @@ theorem roundtrip_classic (p : SessParams) (r : RouteReq) (nh : Bytes) (hs : WFS
     (hA : (attrBytes p r nh).length < 65536)
     (hsz : (be16 0 ++ ([] ++ (be16 (attrBytes p r nh).length ++ (attrBytes p r nh ++ packNlri p r)))).length + 19
       ≤ p.msgSize) :
-    ∃ u, decodeUpdate (paramsOf p)
-        (be16 0 ++ ([] ++ (be16 (attrBytes p r nh).length ++ (attrBytes p r nh ++ packNlri p r)))) = .ok u ∧
-      Meets p r u := by
+    decodeUpdate (paramsOf p)
+        (be16 0 ++ ([] ++ (be16 (attrBytes p r nh).length ++ (attrBytes p r nh ++ packNlri p r)))) =
+        .ok ⟨[], semAll p r nh, [wantNlri p r]⟩ ∧
+      Meets p r ⟨[], semAll p r nh, [wantNlri p r]⟩ := by
   obtain ⟨hafi, hsafi, hlen4⟩ := classic_unicast r nh hc
   obtain ⟨hnl, hnw⟩ := nh_facts p r nh hs hw hnh
   have hwn := wantNh_eq p r nh hw hself hnh
@@ -178,8 +178,9 @@ theorem roundtrip_classic (p : SessParams) (r : RouteReq) (nh : Bytes) (hs : WFS
   have hap : (paramsOf p).ap 1 1 = apSends p r := by simp [Params.ap, paramsOf, apSends, hafi, hsafi]
   have hN : packNlri p r = encNlris 1 false [wantNlri p r] := by
     rw [packNlri_eq p r hnlri, hsafi, encNlris_single]
-  refine ⟨⟨[], semAll p r nh, [wantNlri p r]⟩, ?_, ?_⟩
+  refine ⟨?_, ?_⟩
   · unfold decodeUpdate
+    have hmsz : (paramsOf p).msgSize = p.msgSize := rfl
     rw [if_neg (by omega)]
     have hframe := decodeRaw_frame (paramsOf p) [] (attrBytes p r nh) (packNlri p r) (by simp) hA
     simp only [List.length_nil] at hframe
@@ -190,7 +191,7 @@ theorem roundtrip_classic (p : SessParams) (r : RouteReq) (nh : Bytes) (hs : WFS
     rw [hAeq, decAttrs_encAttrs (paramsOf p) _ hwf _ (Nat.le_refl _)]
     simp only
     rw [hN, decNlris_encNlris 1 1 ((paramsOf p).ap 1 1) false [wantNlri p r]
-      (by intro n hn; simp only [List.mem_singleton] at hn; subst hn; rw [hap, ← hafi, ← hsafi]; exact hnlri)
+      (by intro n hn; simp only [List.mem_singleton] at hn; subst hn; rw [hap]; rw [hafi, hsafi] at hnlri; exact hnlri)
       _ (Nat.le_refl _)]
     simp only
     -- the semantic checks
@@ -229,10 +230,10 @@ theorem roundtrip_mp (p : SessParams) (r : RouteReq) (nh : Bytes) (hs : WFSess p
     (hA : (attrBytes p r nh ++ mpReach p r nh).length < 65536)
     (hsz : (be16 0 ++ ([] ++ (be16 (attrBytes p r nh ++ mpReach p r nh).length ++
       ((attrBytes p r nh ++ mpReach p r nh) ++ [])))).length + 19 ≤ p.msgSize) :
-    ∃ u, decodeUpdate (paramsOf p)
+    decodeUpdate (paramsOf p)
         (be16 0 ++ ([] ++ (be16 (attrBytes p r nh ++ mpReach p r nh).length ++
-          ((attrBytes p r nh ++ mpReach p r nh) ++ [])))) = .ok u ∧
-      Meets p r u := by
+          ((attrBytes p r nh ++ mpReach p r nh) ++ [])))) = .ok ⟨[], semAll p r nh ++ [mpAttr p r nh], []⟩ ∧
+      Meets p r ⟨[], semAll p r nh ++ [mpAttr p r nh], []⟩ := by
   obtain ⟨hnl, hnw⟩ := nh_facts p r nh hs hw hnh
   have hwn := wantNh_eq p r nh hw hself hnh
   have hmpre := prewf_mpAttr p r nh hs hw hnl
@@ -246,8 +247,9 @@ theorem roundtrip_mp (p : SessParams) (r : RouteReq) (nh : Bytes) (hs : WFSess p
     · simp only [List.mem_singleton] at h; subst h; exact hmpre
   have hwf : ∀ a ∈ semAll p r nh ++ [mpAttr p r nh], WFAttr (paramsOf p) a :=
     wfattrs_of_prewf (paramsOf p) _ hpre (by rw [← hAeq]; exact hA)
-  refine ⟨⟨[], semAll p r nh ++ [mpAttr p r nh], []⟩, ?_, ?_⟩
+  refine ⟨?_, ?_⟩
   · unfold decodeUpdate
+    have hmsz : (paramsOf p).msgSize = p.msgSize := rfl
     rw [if_neg (by omega)]
     have hframe := decodeRaw_frame (paramsOf p) [] (attrBytes p r nh ++ mpReach p r nh) [] (by simp) hA
     simp only [List.length_nil] at hframe
@@ -292,5 +294,86 @@ theorem roundtrip_mp (p : SessParams) (r : RouteReq) (nh : Bytes) (hs : WFSess p
       · simp only [List.mem_singleton] at h; subst h; simp [mpAttr, mk, Attr.code, AttrVal.code]
     · obtain ⟨a, b, t, e⟩ := semAll_two p r nh
       simp [report, eorFamily, e]
+
+/-! ### the whole encoder -/
+
+/-- Everything the partial theorem asks of the next hop (each line is an open finding, see `Props/C01`). -/
+def NextHopOk (p : SessParams) (r : RouteReq) : Prop :=
+  ∃ nh, resolveNh p r = some nh ∧ NhFamilyOk p r nh ∧ NoVpnLinkLocal p r nh ∧ SelfOk p r
+
+theorem mpReach_len (p : SessParams) (r : RouteReq) (nh : Bytes) :
+    (mpReach p r nh).length = (mpPayload p r nh).length + (if (mpPayload p r nh).length > 255 then 4 else 3) := by
+  unfold mpReach mpHeader
+  split <;> simp <;> omega
+
+theorem defaultPathRaises_false (p : SessParams) (r : RouteReq) : defaultPathRaises p r = false := by
+  simp [defaultPathRaises, defaultPathAsn4]
+
+/-- The decoded message of whatever `encodeExa` sends: the block, plus MP_REACH_NLRI when the route is not
+    in the NLRI field. -/
+def sentSem (p : SessParams) (r : RouteReq) (nh : Bytes) : UpdateSem :=
+  if classic r nh then ⟨[], semAll p r nh, [wantNlri p r]⟩ else ⟨[], semAll p r nh ++ [mpAttr p r nh], []⟩
+
+theorem roundtrip_sent (p : SessParams) (r : RouteReq) (bs : Bytes) (nh : Bytes) (hs : WFSess p) (hw : WFReq p r)
+    (hnh : resolveNh p r = some nh) (hfam : NhFamilyOk p r nh) (hll : NoVpnLinkLocal p r nh) (hself : SelfOk p r)
+    (hsent : encodeExa p r = .sent bs) :
+    decodeUpdate (paramsOf p) bs = .ok (sentSem p r nh) ∧ Meets p r (sentSem p r nh) := by
+  have hm : p.msgSize ≤ 65535 := hs.2.2.2.2.2.1
+  unfold encodeExa at hsent
+  rw [hnh] at hsent
+  simp only [defaultPathRaises_false, Bool.false_eq_true, if_false] at hsent
+  by_cases c1 : p.msgSize < 23 + (attrBytes p r nh).length
+  · simp [c1] at hsent
+  simp only [c1, if_false] at hsent
+  by_cases c2 : p.msgSize - 23 - (attrBytes p r nh).length = 0
+  · simp [c2] at hsent
+  simp only [c2, if_false] at hsent
+  unfold sentSem
+  by_cases hc : classic r nh = true
+  · simp only [hc, if_true] at hsent ⊢
+    by_cases c3 : (packNlri p r).length ≤ p.msgSize - 23 - (attrBytes p r nh).length
+    · simp only [c3, if_true, Out.sent.injEq] at hsent
+      subst hsent
+      exact roundtrip_classic p r nh hs hw hnh hself hc (by omega) (by simp; omega)
+    · simp [c3] at hsent
+  · have hc' : classic r nh = false := by simpa using hc
+    simp only [hc', Bool.false_eq_true, if_false] at hsent ⊢
+    by_cases c3 : (mpPayload p r nh).length + (if (mpPayload p r nh).length > 255 then 4 else 3) >
+        p.msgSize - 23 - (attrBytes p r nh).length
+    · simp [c3] at hsent
+    · simp only [c3, if_false, Out.sent.injEq] at hsent
+      subst hsent
+      have hl := mpReach_len p r nh
+      exact roundtrip_mp p r nh hs hw hnh hself hfam hll (by simp; omega) (by simp; omega)
+
+/-! ### raw attributes (before RFC 6793) -/
+
+def gRaw (c : Nat) (a : Attr) : Option AttrVal := if a.code == c then some a.val else none
+
+theorem rawAttr_eq (u : UpdateSem) (c : Nat) : rawAttr u c = u.attrs.findSome? (gRaw c) := by
+  unfold rawAttr
+  induction u.attrs with
+  | nil => rfl
+  | cons a t ih =>
+    simp only [List.find?_cons, List.findSome?_cons, gRaw]
+    cases h : (a.code == c) <;> simp [h, ih, gRaw]
+
+theorem gRaw_none (c : Nat) (a : Attr) (h : a.code ≠ c) : gRaw c a = none := by
+  simp [gRaw, h]
+
+theorem sentSem_attrs (p : SessParams) (r : RouteReq) (nh : Bytes) :
+    ∃ tail, IsTail tail ∧ (sentSem p r nh).attrs = semAll p r nh ++ tail := by
+  unfold sentSem
+  split
+  · exact ⟨[], isTail_nil, by simp⟩
+  · exact ⟨[mpAttr p r nh], isTail_mp p r nh, rfl⟩
+
+theorem raw_slot2 (p : SessParams) (r : RouteReq) (nh : Bytes) (c : Nat) (hc : c = 2 ∨ c = 17) :
+    rawAttr (sentSem p r nh) c = (semAsPath p (modelPath p r)).findSome? (gRaw c) := by
+  obtain ⟨tail, ht, e⟩ := sentSem_attrs p r nh
+  rw [rawAttr_eq, e, findSome_append_tail _ _ _ (fun x hx => gRaw_none c x (by
+    rw [tail_code tail ht x hx]; rcases hc with h | h <;> subst h <;> decide))]
+  rw [find_semAll_slot p r nh (gRaw c) c 2 (gRaw_none c) (by decide)
+    (by rcases hc with h | h <;> subst h <;> decide), slot2]
 
 end Exa.WireExa
